@@ -109,8 +109,19 @@ PROPS = {
             {'engine': 'verus', 'name': 'start_next', 'tier': 'quick', 'exclude_obligations': ['start.progress_on_replica_end'], 'role': 'Start::next forwards exactly the frontier announcements; announced watermarks strictly increase; data is never altered'},
             {'engine': 'verus', 'name': 'reorder', 'tier': 'quick', 'role': 'Reorder::next: the watermark follows every buffered element it covers and is forwarded unchanged'},
             {'engine': 'verus', 'name': 'zip', 'tier': 'quick', 'role': 'Zip::next: a pair carries the max of the two timestamps'},
+            {'engine': 'verus', 'name': 'event_time_v', 'tier': 'quick', 'exclude_obligations': ['process.early_element_not_dropped'], 'role': 'EventTimeWindowManager::process: after Watermark(w) no window that can still fire has end <= w'},
         ],
         'explanation': 'per-operator watermark contracts proved on the real next() functions (Verus, unbounded) plus the frontier / event-time window contracts (Kani single-call harnesses, bounded state size).',
         'assumptions': ['W_in: the operator input respects the watermark contract', 'Fold/KeyedFold/FlatMap/AddTimestamp/WindowOperator wiring: see unit list'],
+    },
+    'C13': {
+        'level': 'proof',
+        'units': [
+            {'engine': 'verus', 'name': 'event_time_v', 'tier': 'quick', 'role': 'EventTimeWindowManager::{alloc_windows,process}: assignment to exactly the covering windows, firing rule, nothing carried over'},
+        ],
+        'explanation': 'Verus proof (any number of open windows, any size/slide, |t| <= 2^60) on the extracted alloc_windows/process: a non-late element is added to exactly the windows whose '
+                       'interval contains it (at least one when it is not before the first open window, at most ceil(size/slide)), a watermark fires exactly the windows it passed, oldest first, '
+                       'FlushAndRestart fires everything and carries nothing over. The out-of-order-before-first-window case is the recorded known finding F7.',
+        'assumptions': ['iterator chains desugared by the declared V-ITER templates', 'transaction windows: unit transaction_window (Kani) when registered'],
     },
 }
